@@ -15,6 +15,7 @@
 //   send <idset> <level> <class>              Logging::log( ids, msg)  -> ok <log>/<dest>=<n> ...
 //   sendname <name> <level> <class>           Logging::log( name, msg) -> same
 //   macro <idset> <level> <class>             LOG_LEVEL( ids, level) << class << "x" -> same | throw
+//   macroname <name> <level> <class>          LOG_LEVEL( "name", level) << class << "x" -> same | throw
 //   precheck <idset> <level>                  discard_by_level( ids, level) -> ok discard=<bool> | throw
 //   precheckname <name> <level>               discard_by_level( name, level)
 //   sweep <idset>                             every (level, class) message through Logging::log( ids, msg)
@@ -131,6 +132,23 @@ void macroSend(celma::log::id_t ids, int level, LogClass cls) {
    }
 }
 
+// the same with a log NAME as first argument of the macro
+#define VH_MACRO_NAME_CASE(n, lname) \
+   case n: { LOG_LEVEL(name, lname) << cls << "x"; } break
+
+void macroSendName(const std::string& name, int level, LogClass cls) {
+   switch (level) {
+      VH_MACRO_NAME_CASE(0, undefined);
+      VH_MACRO_NAME_CASE(1, fatal);
+      VH_MACRO_NAME_CASE(2, error);
+      VH_MACRO_NAME_CASE(3, warning);
+      VH_MACRO_NAME_CASE(4, info);
+      VH_MACRO_NAME_CASE(5, debug);
+      VH_MACRO_NAME_CASE(6, fullDebug);
+      default: throw std::logic_error("harness: level");
+   }
+}
+
 std::string step(const std::vector<std::string>& t, const std::string&) {
    if (t.size() == 2 && t[0] == "case") {
       Logging::reset();
@@ -194,10 +212,10 @@ std::string step(const std::vector<std::string>& t, const std::string&) {
       std::string r = vh::guarded([&] { Filters::setDuplicatePolicy(p); });
       return r.empty() ? "ok" : r;
    }
-   if (t.size() == 4 && (t[0] == "send" || t[0] == "sendname" || t[0] == "macro")) {
+   if (t.size() == 4 && (t[0] == "send" || t[0] == "sendname" || t[0] == "macro" || t[0] == "macroname")) {
       unsigned long ids = 0, lv = 0, cl = 0;
       if (!num(t[2], lv) || !num(t[3], cl) || lv > 6 || cl > 6) return "bad-op";
-      if (t[0] != "sendname" && (!num(t[1], ids) || ids > 0xffffffffUL)) return "bad-op";
+      if (t[0] != "sendname" && t[0] != "macroname" && (!num(t[1], ids) || ids > 0xffffffffUL)) return "bad-op";
       LogMsg msg(LOG_MSG_OBJECT_INIT);
       msg.setLevel(static_cast<LogLevel>(lv));
       msg.setClass(static_cast<LogClass>(cl));
@@ -206,6 +224,7 @@ std::string step(const std::vector<std::string>& t, const std::string&) {
       std::string r;
       if (t[0] == "send") r = vh::guarded([&] { Logging::instance().log(static_cast<celma::log::id_t>(ids), msg); });
       else if (t[0] == "sendname") r = vh::guarded([&] { Logging::instance().log(t[1], msg); });
+      else if (t[0] == "macroname") r = vh::guarded([&] { macroSendName(t[1], static_cast<int>(lv), static_cast<LogClass>(cl)); });
       else r = vh::guarded([&] { macroSend(static_cast<celma::log::id_t>(ids), static_cast<int>(lv), static_cast<LogClass>(cl)); });
       if (!r.empty()) {
          // an exception must not have delivered anything
